@@ -15,7 +15,6 @@
 #include <fixedmath/math.h>
 #include <fixedmath/iostream.h>
 #include <cstdint>
-#include <cstring>
 #include <sstream>
 #include <type_traits>
 
@@ -30,23 +29,23 @@ using std::int64_t;
 
 namespace
 {
-template<class T> inline T arg(int64_t x) noexcept
+template<class T> constexpr T arg(int64_t x) noexcept
   {
   if constexpr (std::is_same_v<T, float>)
-    { uint32_t u = static_cast<uint32_t>(static_cast<uint64_t>(x)); float f; std::memcpy(&f, &u, 4); return f; }
+    return __builtin_bit_cast(float, static_cast<uint32_t>(static_cast<uint64_t>(x)));
   else if constexpr (std::is_same_v<T, double>)
-    { double d; std::memcpy(&d, &x, 8); return d; }
+    return __builtin_bit_cast(double, x);
   else if constexpr (std::is_same_v<T, fixed_t>)
     return as_fixed(x);
   else
     return static_cast<T>(x);
   }
-template<class T> inline int64_t ret(T v) noexcept
+template<class T> constexpr int64_t ret(T v) noexcept
   {
   if constexpr (std::is_same_v<T, float>)
-    { uint32_t u; std::memcpy(&u, &v, 4); return static_cast<int64_t>(u); }
+    return static_cast<int64_t>(__builtin_bit_cast(uint32_t, v));
   else if constexpr (std::is_same_v<T, double>)
-    { int64_t r; std::memcpy(&r, &v, 8); return r; }
+    return __builtin_bit_cast(int64_t, v);
   else if constexpr (std::is_same_v<T, fixed_t>)
     return v.v;
   else if constexpr (std::is_same_v<T, bool>)
@@ -59,9 +58,25 @@ template<class A, class B, class R> constexpr bool result_type_ok =
   (std::is_same_v<A, double> || std::is_same_v<B, double>) ? std::is_same_v<R, double> : std::is_same_v<R, fixed_t>;
 }
 
+#if !defined(VERIF_KERNELS_ONLY)
 struct w_entry { const char * name; int64_t (*fn)(int64_t, int64_t); };
+#endif
 
-#define W(name) extern "C" int64_t w_##name(int64_t a, int64_t b)
+// Every entry point is a kernel k_<name>(a,b) plus an extern "C" forwarder w_<name>. Kernels are constexpr function
+// templates (checked lazily), so the constant-evaluator arm can include this file with VERIF_KERNELS_ONLY and force
+// k_<name><>(a,b) into a static_assert; W_RT marks entry points that are run-time only by design (compiled table
+// functions, the stream operator, detail::sqrt_std_math).
+#if defined(VERIF_KERNELS_ONLY)
+#define W(name) template<int = 0> constexpr int64_t k_##name(int64_t a, int64_t b)
+#define W_RT(name) template<int = 0> inline int64_t k_##name(int64_t a, int64_t b)
+#else
+#define W(name) template<int = 0> constexpr int64_t k_##name(int64_t a, int64_t b); \
+  extern "C" int64_t w_##name(int64_t a, int64_t b) { return k_##name<>(a, b); } \
+  template<int> constexpr int64_t k_##name(int64_t a, int64_t b)
+#define W_RT(name) template<int = 0> inline int64_t k_##name(int64_t a, int64_t b); \
+  extern "C" int64_t w_##name(int64_t a, int64_t b) { return k_##name<>(a, b); } \
+  template<int> inline int64_t k_##name(int64_t a, int64_t b)
+#endif
 #define UNUSED_B (void)b
 
 // ---------------------------------------------------------------- fixed x fixed
@@ -146,7 +161,7 @@ W(const_pidiv2) { (void)a; UNUSED_B; return fixpidiv2.v; }
 // ---------------------------------------------------------------- sqrt family, transcendental
 W(sqrt) { UNUSED_B; return sqrt(as_fixed(a)).v; }
 W(sqrt_abacus) { UNUSED_B; return detail::sqrt_abacus(as_fixed(a)).v; }
-W(sqrt_std_math) { UNUSED_B; return detail::sqrt_std_math(as_fixed(a)).v; }
+W_RT(sqrt_std_math) { UNUSED_B; return detail::sqrt_std_math(as_fixed(a)).v; }
 W(hypot) { return hypot(as_fixed(a), as_fixed(b)).v; }
 W(sin) { UNUSED_B; return sin(as_fixed(a)).v; }
 W(cos) { UNUSED_B; return cos(as_fixed(a)).v; }
@@ -159,21 +174,21 @@ W(sqrt_constexpr_available) { (void)a; UNUSED_B; return sqrt_constexpr_available
 W(cplusplus) { (void)a; UNUSED_B; return __cplusplus; }
 
 // ---------------------------------------------------------------- compiled table functions
-W(sin_angle_aprox) { UNUSED_B; return sin_angle_aprox(static_cast<int32_t>(a)).v; }
-W(cos_angle_aprox) { UNUSED_B; return cos_angle_aprox(static_cast<int32_t>(a)).v; }
-W(sqrt_aprox) { UNUSED_B; return sqrt_aprox(as_fixed(a)).v; }
-W(hypot_aprox) { return hypot_aprox(as_fixed(a), as_fixed(b)).v; }
-W(atan_index_aprox) { UNUSED_B; return atan_index_aprox(as_fixed(a)).v; }
-W(atan_aprox) { UNUSED_B; return atan_aprox(as_fixed(a)).v; }
-W(sin_angle_tab) { UNUSED_B; return sin_angle_tab(static_cast<uint16_t>(a)).v; }
-W(cos_angle_tab) { UNUSED_B; return cos_angle_tab(static_cast<uint16_t>(a)).v; }
-W(tan_tab) { UNUSED_B; return tan_tab(static_cast<uint8_t>(a)).v; }
-W(square_root_tab) { UNUSED_B; return square_root_tab(static_cast<uint8_t>(a)); }
+W_RT(sin_angle_aprox) { UNUSED_B; return sin_angle_aprox(static_cast<int32_t>(a)).v; }
+W_RT(cos_angle_aprox) { UNUSED_B; return cos_angle_aprox(static_cast<int32_t>(a)).v; }
+W_RT(sqrt_aprox) { UNUSED_B; return sqrt_aprox(as_fixed(a)).v; }
+W_RT(hypot_aprox) { return hypot_aprox(as_fixed(a), as_fixed(b)).v; }
+W_RT(atan_index_aprox) { UNUSED_B; return atan_index_aprox(as_fixed(a)).v; }
+W_RT(atan_aprox) { UNUSED_B; return atan_aprox(as_fixed(a)).v; }
+W_RT(sin_angle_tab) { UNUSED_B; return sin_angle_tab(static_cast<uint16_t>(a)).v; }
+W_RT(cos_angle_tab) { UNUSED_B; return cos_angle_tab(static_cast<uint16_t>(a)).v; }
+W_RT(tan_tab) { UNUSED_B; return tan_tab(static_cast<uint8_t>(a)).v; }
+W_RT(square_root_tab) { UNUSED_B; return square_root_tab(static_cast<uint8_t>(a)); }
 
 // ---------------------------------------------------------------- literals, stream
 W(udl_int) { UNUSED_B; return fixedmath::operator""_fix(static_cast<unsigned long long>(a)).v; }
 W(udl_float) { UNUSED_B; return fixedmath::operator""_fix(static_cast<long double>(arg<double>(a))).v; }
-W(ostream) { UNUSED_B; std::ostringstream s; s << as_fixed(a); std::string t = s.str();
+W_RT(ostream) { UNUSED_B; std::ostringstream s; s << as_fixed(a); std::string t = s.str();
   uint64_t h = 1469598103934665603ull; for(unsigned char c : t) { h ^= c; h *= 1099511628211ull; } return static_cast<int64_t>(h); }
 
 // ---------------------------------------------------------------- per scalar type: conversions and mixed operators
@@ -236,6 +251,7 @@ W(rt_f64) { UNUSED_B; return fixed_t{static_cast<double>(as_fixed(a))}.v; }
 W(rt_f32) { UNUSED_B; return fixed_t{static_cast<float>(as_fixed(a))}.v; }
 
 // ---------------------------------------------------------------- registry
+#if !defined(VERIF_KERNELS_ONLY)
 #define E(name) { #name, &w_##name },
 #define E_CONST(tag) E(add_c_##tag) E(add_cl_##tag) E(sub_c_##tag) E(sub_cl_##tag) E(addeq_c_##tag) E(subeq_c_##tag)
 #define E_MIXED(tag) E(add_f##tag) E(add_##tag##f) E(sub_f##tag) E(sub_##tag##f) E(mul_f##tag) E(mul_##tag##f) E(div_f##tag) E(div_##tag##f)
@@ -266,3 +282,4 @@ extern "C" const w_entry w_entries[] = {
   { nullptr, nullptr }
 };
 extern "C" const char * w_cfg() { return VERIF_CFG; }
+#endif
